@@ -53,74 +53,87 @@ fn tid() -> usize {
     rt::current_tid().unwrap_or(0)
 }
 
-pub fn load<S: Strat>(c: &Cont<S>) -> Guard<V, S> {
-    let start = rt::stamp();
-    rt::call_begin("load", "C08", LOAD_CAP);
-    let g = c.sw.load();
+/// Invocation side of a recorded call.
+pub struct Begin {
+    start: u64,
+    stale: u32,
+    vc: rt::VC,
+}
+
+pub fn begin(name: &'static str, prop: &'static str, cap: u64) -> Begin {
+    let b = Begin { start: rt::stamp(), stale: rt::my_stale_reads(), vc: rt::my_clock() };
+    rt::call_begin(name, prop, cap);
+    b
+}
+
+pub fn finish(b: Begin, container: u8, kind: Kind, cur: u64, new: u64, ret: u64) {
     let steps = rt::call_end();
-    let end = rt::stamp();
-    record(CallRec { tid: tid(), container: c.id, kind: Kind::Load, cur: 0, new: 0, ret: g.peek_label(), start, end, steps });
+    record(CallRec {
+        tid: tid(),
+        container,
+        kind,
+        cur,
+        new,
+        ret,
+        start: b.start,
+        end: rt::stamp(),
+        steps,
+        stale: rt::my_stale_reads() - b.stale,
+        start_vc: b.vc,
+        end_vc: rt::my_clock(),
+    });
+}
+
+pub fn load<S: Strat>(c: &Cont<S>) -> Guard<V, S> {
+    let b = begin("load", "C08", LOAD_CAP);
+    let g = c.sw.load();
+    finish(b, c.id, Kind::Load, 0, 0, g.peek_label());
     g
 }
 
 pub fn load_full<S: Strat>(c: &Cont<S>) -> V {
-    let start = rt::stamp();
-    rt::call_begin("load_full", "C08", LOAD_CAP);
+    let b = begin("load_full", "C08", LOAD_CAP);
     let v = c.sw.load_full();
-    let steps = rt::call_end();
-    let end = rt::stamp();
-    record(CallRec { tid: tid(), container: c.id, kind: Kind::LoadFull, cur: 0, new: 0, ret: v.peek_label(), start, end, steps });
+    finish(b, c.id, Kind::LoadFull, 0, 0, v.peek_label());
     v
 }
 
 pub fn store<S: Strat>(c: &Cont<S>, v: V) {
     let new = v.peek_label();
-    let start = rt::stamp();
-    rt::call_begin("store", "C09", WRITE_CAP);
+    let b = begin("store", "C09", WRITE_CAP);
     c.sw.store(v);
-    let steps = rt::call_end();
-    let end = rt::stamp();
-    record(CallRec { tid: tid(), container: c.id, kind: Kind::Store, cur: 0, new, ret: 0, start, end, steps });
+    finish(b, c.id, Kind::Store, 0, new, 0);
 }
 
 pub fn swap<S: Strat>(c: &Cont<S>, v: V) -> V {
     let new = v.peek_label();
-    let start = rt::stamp();
-    rt::call_begin("swap", "C09", WRITE_CAP);
+    let b = begin("swap", "C09", WRITE_CAP);
     let old = c.sw.swap(v);
-    let steps = rt::call_end();
-    let end = rt::stamp();
-    record(CallRec { tid: tid(), container: c.id, kind: Kind::Swap, cur: 0, new, ret: old.peek_label(), start, end, steps });
+    finish(b, c.id, Kind::Swap, 0, new, old.peek_label());
     old
 }
 
 pub fn cas<S: Strat>(c: &Cont<S>, cur: &V, new: V) -> Guard<V, S> {
     let (curl, newl) = (cur.peek_label(), new.peek_label());
-    let start = rt::stamp();
-    rt::call_begin("compare_and_swap", "C09", WRITE_CAP);
+    let b = begin("compare_and_swap", "C09", WRITE_CAP);
     let g = c.sw.compare_and_swap(cur, new);
-    let steps = rt::call_end();
-    let end = rt::stamp();
-    record(CallRec { tid: tid(), container: c.id, kind: Kind::Cas, cur: curl, new: newl, ret: g.peek_label(), start, end, steps });
+    finish(b, c.id, Kind::Cas, curl, newl, g.peek_label());
     g
 }
 
 /// rcu with a closure that derives the new value's label from the old one.
 pub fn rcu<S: Strat>(c: &Cont<S>, mut f: impl FnMut(&V) -> V) -> V {
-    let start = rt::stamp();
     let last_new = std::cell::Cell::new(0u64);
     let attempts = std::cell::Cell::new(0u64);
-    rt::call_begin("rcu", "C09", WRITE_CAP);
+    let b = begin("rcu", "C09", WRITE_CAP);
     let old = c.sw.rcu(|v: &V| {
         attempts.set(attempts.get() + 1);
         let n = f(v);
         last_new.set(n.peek_label());
         n
     });
-    let steps = rt::call_end();
-    let end = rt::stamp();
     let ret = old.peek_label();
-    record(CallRec { tid: tid(), container: c.id, kind: Kind::Rcu, cur: ret, new: last_new.get(), ret, start, end, steps });
+    finish(b, c.id, Kind::Rcu, ret, last_new.get(), ret);
     crate::world::observe(1000 + attempts.get());
     old
 }
